@@ -58,7 +58,9 @@ namespace occa {
         mutex.lock();
       // Check if the ring is empty
       if (!entry || !head) {
-        mutex.unlock();
+        // Only release what was acquired here: with threadLock == false the caller holds the lock
+        if (threadLock)
+          mutex.unlock();
         return;
       }
       ringEntry_t *tail = head->leftRingEntry;
@@ -70,7 +72,8 @@ namespace occa {
                 ? tail
                 : NULL);
       }
-      mutex.unlock();
+      if (threadLock)
+        mutex.unlock();
     }
    #else
     template <class entry_t>
